@@ -388,5 +388,5 @@ def run_job(job, ctx):
         return
     m = Monitor(job["shape"], job["leaf"], job["tier"])
     n, nops = W.explore(ctx, m.spec, job["leaf"], job["depth"], m, tier=job["tier"], sibling=True, max_states=3000,
-                        extra_ops=extra_ops(m.spec, job["leaf"]))
+                        extra_ops=extra_ops(m.spec, job["leaf"]), drop=("nv", "selfset", "augset"))   # routes that reach no state the others do not reach
     ctx.sample({"shape": job["shape"], "leaf": job["leaf"], "states_of_A": n, "operations_per_state": nops})
